@@ -512,6 +512,22 @@ def resolveConstantsSimple (opts : Opts) (d : Decls) (defs : Defs) (nodes : List
                 else .ok (defs.setSym r s', count + 1)
       | _ => .ok (defs, count)) (.ok (defs, 0))
 
+/-- a node as the parser delivers it: item references are assigned only by the declaration and
+    definition passes, never by the parser (this function is the identity on parser output; it makes
+    that fact visible where nodes enter the passes: after parsing and when an `#if` arm is spliced) -/
+def AstNode.fresh : AstNode → AstNode
+  | .addr e _ => .addr e none
+  | .align e _ => .align e none
+  | .bank name _ => .bank name none
+  | .bankdef b _ => .bankdef b none
+  | .data sz es _ => .data sz es []
+  | .fn name ps body _ => .fn name ps body none
+  | .res e _ => .res e none
+  | .ruledef name sub rules _ => .ruledef name sub rules none
+  | .instr src _ => .instr src none
+  | .symbol level name kind ne _ => .symbol level name kind ne none
+  | n => n
+
 /-- `resolve_ifs`: from the last node to the first; returns the new node list and the count -/
 def resolveIfs (d : Decls) (defs : Defs) (nodes : List AstNode) : Except String (List AstNode × Nat) :=
   -- process in reverse, building the result from the back
@@ -523,8 +539,8 @@ def resolveIfs (d : Decls) (defs : Defs) (nodes : List AstNode) : Except String 
       | .ifDir cond t f =>
         match evalSimple d defs cond with
         | .error m => .error m
-        | .ok (.bool true) => .ok (t ++ out, count + 1)
-        | .ok (.bool false) => .ok ((f.getD []) ++ out, count + 1)
+        | .ok (.bool true) => .ok (t.map AstNode.fresh ++ out, count + 1)
+        | .ok (.bool false) => .ok ((f.getD []).map AstNode.fresh ++ out, count + 1)
         | .ok _ => .ok (n :: out, count)
       | _ => .ok (n :: out, count)) (.ok ([], 0))
 
@@ -816,7 +832,7 @@ def checkUnusedDefines (opts : Opts) (d : Decls) : List String :=
 
 /-- everything before `match_all`: parsing with inclusion, declarations, `#if`, definitions -/
 def frontEndPre (opts : Opts) (fs : SrcFiles) (roots : List (List Char)) : Except (List String) (Decls × Defs × List AstNode) :=
-  match parseMany fs roots with
+  match (parseMany fs roots).map (·.map AstNode.fresh) with
   | .error e => .error [e]
   | .ok nodes =>
     match (SymMgr.new "bank").declare [] "#global_bankdef" 0 .other with
